@@ -137,7 +137,7 @@ def gen(rng, scenario, tier):
             kind = rng.choice(["label", "label", "label_perm"]) if c < 0.8 else rng.choice(["update", "update2", "label_renamed", "label_missing", "label_extra", "label2"])
         n_rows = 2 if kind.endswith("2") else 1
         ev.append([kind, [_row(rng, shift, flip) for _ in range(n_rows)]])
-    return {"cfg": cfg, "ref": ref, "events": ev}
+    return {"cfg": cfg, "ref": ref, "events": ev, "shuffled_index": rng.random() < 0.3}
 
 
 class Harness:
@@ -214,6 +214,10 @@ def run(case, ctx, lifecycle=False):
         if missing:
             ctx.note("kfold_seam_missing")
         ref = _frame(case["ref"])
+        if case.get("shuffled_index"):
+            idx = list(range(len(ref)))
+            idx = idx[len(idx) // 3:] + idx[: len(idx) // 3][::-1]     # a permuted integer index (as after df.sample(frac=1))
+            ref.index = idx
         clf = Stub(cfg["margin"]).fit(ref[["a", "b"]], ref["y"])
         det = ctx.call("C19:ctor", MD3, clf, margin_calculation_function=margin_fn, sensitivity=cfg["sensitivity"], k=cfg["k"],
                        oracle_data_length_required=cfg["oracle_len"])
